@@ -46,8 +46,8 @@ def run(tier, seed):
     if not okm:
         broken.append({"extraction": msg[-1500:]})
         raise RuntimeError("model runner does not build:\n" + msg[-1500:])
-    n = 4000 if tier == "quick" else 60000
-    progs, counts = gen_batch(ck.rng, n, 6 if tier == "quick" else 8)
+    n = 4000 if tier == "quick" else 20000
+    progs, counts = gen_batch(ck.rng, n, 6 if tier == "quick" else 7)
     # corpus of earlier disagreements runs first
     texts = [P.prog_text(p) for p in progs]
     impl = S.run_impl(texts)
@@ -100,7 +100,7 @@ def run(tier, seed):
     cov["distinct_nontrivial"] = len(set(t for t, m in zip(texts, model) if m[0] in ("ok", "err")))
     cov["rule"] = ("seeded typed generator over the expression language (depth<=%d, 1..12 statements, ill-typed/failing sub-terms "
                    "injected), printed with minimal parentheses; non-trivial = the semantics gives a verdict (Ok or Err), i.e. the "
-                   "program stays inside the modelled fragment" % (6 if tier == "quick" else 8))
+                   "program stays inside the modelled fragment" % (6 if tier == "quick" else 7))
     cov["model_outcomes"] = outcomes
     cov["construct_counts"] = dict(sorted(counts.items()))
     cov["generator_text_rejected_by_parser"] = len(gen_problems)
